@@ -276,28 +276,27 @@ def history_case(draw):
 
 @st.composite
 def huge_set(draw):
-    """more segments than any bounded look-back would scan: segments along a diagonal from few draws, keys distinct"""
+    """more segments than any bounded look-back would scan: two long segments A and B that follow each other on the
+    diagonal, and between them in the pre-order (sum of the four end coordinates) hundreds of short off-diagonal
+    segments that chain with nothing; the best chain is A -> B whatever lies between them in the order"""
     n = draw(st.sampled_from([258, 300, 420]))
     rev = draw(st.booleans())
-    step = draw(st.integers(30, 60))
-    ln = draw(st.integers(5, 40))
-    off = draw(st.lists(st.integers(-200, 200), min_size=7, max_size=13))
-    segs = []
+    L = draw(st.integers(5000, 12000))
+    gap = draw(st.integers(0, 800))
+    A = {"rs": 1000, "re": 1000 + L, "qs": 1000, "qe": 1000 + L, "score": draw(st.integers(3000, 12000))}
+    B = {"rs": A["re"] + gap, "re": A["re"] + gap + L, "qs": A["qe"] + gap, "qe": A["qe"] + gap + L, "score": draw(st.integers(3000, 12000))}
+    ka, kb = key_of(A), key_of(B)
+    off = draw(st.integers(3000, 9000)) * draw(st.sampled_from([1, -1]))
+    segs, keys = [], {ka, kb}
     for i in range(n):
-        rs = 1000 + i * step
-        qs = rs + off[i % len(off)] + (i * i) % 17
-        segs.append({"rs": rs, "re": rs + ln + (i % 5), "qs": qs, "qe": qs + ln + (i % 3), "score": 1 + (i * 7) % 40})
-    # two strong segments far apart in the pre-order that chain well with each other
-    a, b = draw(st.integers(0, 20)), draw(st.integers(n - 20, n - 1))
-    segs[a] = {"rs": 100, "re": 900, "qs": 100, "qe": 900, "score": 5000}
-    segs[b] = {"rs": 1000 + n * step + 50, "re": 1000 + n * step + 900, "qs": 1000 + n * step + 50, "qe": 1000 + n * step + 900, "score": 5000}
-    keys = set()
-    out = []
-    for sg in segs:
-        if key_of(sg) in keys:
-            continue
-        keys.add(key_of(sg))
-        out.append(sg)
+        # key strictly between A's and B's; far off the diagonal
+        k = ka + 1 + ((i * 7919) % (kb - ka - 50))
+        rs = (k - off) // 4
+        sg = {"rs": rs, "re": rs + 5 + (i % 7), "qs": max(0, rs + off), "qe": max(0, rs + off) + 5 + (i % 5), "score": 1 + (i * 7) % 60}
+        if ka < key_of(sg) < kb and key_of(sg) not in keys:
+            keys.add(key_of(sg))
+            segs.append(sg)
+    out = [A] + segs + [B]
     order = draw(st.sampled_from(["given", "reversed", "interleaved"]))
     if order == "reversed":
         out = out[::-1]
